@@ -336,8 +336,12 @@ func report(w *World, sum *propSummary, cfg RunConfig, verif string, seed int, w
 	return exit
 }
 
-var propLevels = map[string]string{}
-var propExplain = map[string]string{}
+var propLevels = map[string]string{"C18": "other"}
+var propExplain = map[string]string{
+	"C18": "Ownership contracts (guarded fields, held-at-entry locks, goroutine-closure clauses) written in /repo/<pkg>/verif_contracts.go are discharged by a must-hold lockset dataflow over go/ssa for every function of every repository package, plus one SMT-discharged aliasing postcondition (NumHash.get returns a copy). This decides a lock discipline for the named fields on every control-flow path; it does not explore schedules and knows no happens-before edges other than mutexes. obligations/discharged count the ownership obligations (back end 'flow') and the SMT obligations together; obligations listed in KNOWN_FINDINGS.txt are reported as KNOWN-FINDING and excluded from both counts.",
+	"C20": "Manager.Run ordering facts are control-flow obligations over go/ssa (back end 'flow'); AllIntegrations' merge is an SMT-discharged contract. Goroutine timing is not explored.",
+	"C14": "glf.any and lwc.get are SMT-discharged; the fetch plan (glf.New + Client.Get) is decided by the bounded all-pairs stand-in listed under 'bounded' (labelled bounded, not counted in obligations/discharged).",
+}
 
 func round3(f float64) float64 { return float64(int(f*1000+0.5)) / 1000 }
 
